@@ -19,6 +19,109 @@ def to_smt2(ob) -> str:
     return s.to_smt2()
 
 
+def _has_quantifier(t, _cache={}):
+    key = t.get_id()
+    if key in _cache:
+        return _cache[key]
+    hit, stack, seen = False, [t], set()
+    while stack:
+        x = stack.pop()
+        i = x.get_id()
+        if i in seen:
+            continue
+        seen.add(i)
+        if z3.is_quantifier(x):
+            hit = True
+            break
+        if z3.is_app(x):
+            stack.extend(x.children())
+    _cache[key] = hit
+    return hit
+
+
+def to_smt2_ground(ob):
+    """The obligation with its quantified hypotheses dropped (a weaker hypothesis set: `unsat` still
+    discharges the obligation).  None when nothing would be dropped or the goal itself is quantified."""
+    if ob.expect != "unsat" or _has_quantifier(ob.goal):
+        return None
+    hyps = [h for h in ob.hyps if not _has_quantifier(h)]
+    if len(hyps) == len(ob.hyps):
+        return None
+    s = z3.Solver()
+    s.add(*hyps, z3.Not(ob.goal))
+    return s.to_smt2()
+
+
+def _ground_subterms(t, acc, depth=0, _seen=None):
+    """Ground (bound-variable free) subterms of t grouped by sort name."""
+    seen = _seen if _seen is not None else set()
+    stack = [t]
+    while stack:
+        x = stack.pop()
+        i = x.get_id()
+        if i in seen:
+            continue
+        seen.add(i)
+        if z3.is_quantifier(x):
+            continue  # terms under a binder may mention bound variables
+        if z3.is_app(x):
+            k = x.sort().kind()
+            if k in (z3.Z3_INT_SORT, z3.Z3_SEQ_SORT, z3.Z3_UNINTERPRETED_SORT, z3.Z3_DATATYPE_SORT) and not z3.is_bool(x):
+                acc.setdefault(str(x.sort()), {})[i] = x
+            stack.extend(x.children())
+    return acc
+
+
+def to_smt2_inst(ob, cap=10):
+    """One-shot instantiation: the goal's universal variables are skolemised and every universally quantified
+    hypothesis is instantiated with the skolem constants and the ground terms of matching sort that occur in
+    the (negated) goal and in the quantifier-free hypotheses.  Only instances are kept, the quantified
+    hypotheses themselves are dropped: a weaker hypothesis set, so `unsat` still discharges the obligation."""
+    if ob.expect != "unsat":
+        return None
+    qh = [h for h in ob.hyps if z3.is_quantifier(h) and h.is_forall()]
+    if not qh:
+        return None
+    goal = ob.goal
+    skolems = []
+    while z3.is_quantifier(goal) and goal.is_forall():
+        vs = [z3.FreshConst(goal.var_sort(i), "sk") for i in range(goal.num_vars())]
+        skolems.extend(vs)
+        goal = z3.substitute_vars(goal.body(), *reversed(vs))
+    neg = z3.Not(goal)
+    ground_h = [h for h in ob.hyps if not _has_quantifier(h)]
+    other_q = [h for h in ob.hyps if _has_quantifier(h) and not (z3.is_quantifier(h) and h.is_forall())]
+    cands: dict = {}
+    _ground_subterms(neg, cands)
+    for sk in skolems:
+        cands.setdefault(str(sk.sort()), {})[sk.get_id()] = sk
+    goal_terms = {k: dict(v) for k, v in cands.items()}
+    for h in ground_h:
+        _ground_subterms(h, cands)
+    inst = []
+    for h in qh:
+        n = h.num_vars()
+        pools = []
+        for i in range(n):
+            sn = str(h.var_sort(i))
+            pref = list(goal_terms.get(sn, {}).values())
+            rest = [t for k, t in cands.get(sn, {}).items() if k not in goal_terms.get(sn, {})]
+            # smallest terms first: skolems, constants and short applications are the useful instances
+            pool = sorted(pref, key=lambda t: len(str(t)))[:cap] + sorted(rest, key=lambda t: len(str(t)))[: max(0, cap - len(pref))]
+            pools.append(pool)
+        if any(not p for p in pools) or n > 2:
+            continue
+        import itertools
+
+        for combo in itertools.islice(itertools.product(*pools), 150):
+            inst.append(z3.substitute_vars(h.body(), *reversed(combo)))
+    if not inst:
+        return None
+    s = z3.Solver()
+    s.add(*ground_h, *other_q, *inst, neg)
+    return s.to_smt2()
+
+
 def z3_text_for_cvc5(text: str) -> str:
     t = re.sub(r"\(\(_ ([^\s()]+) 0\)", r"(\1", text)  # recursive function applications
     t = t.replace("(set-info :status unknown)", "")
@@ -70,7 +173,19 @@ def ast_to_py(v, depth=0):
 
 def _solve_one(job):
     """Worker: returns dict(verdict, solver, time, reason, model)."""
-    oid, text, timeout_ms, input_names, use_cvc5 = job
+    oid, text, timeout_ms, input_names, use_cvc5 = job[:5]
+    ground = job[5] if len(job) > 5 else None
+    if ground is not None:
+        g = _z3_run(oid, ground, 1500, input_names)
+        if g["verdict"] == "unsat":
+            g["solver"] = "z3 (quantifier-free hypotheses only)"
+            return g
+    inst = job[6] if len(job) > 6 else None
+    if inst is not None:
+        g = _z3_run(oid, inst, 4000, input_names)
+        if g["verdict"] == "unsat":
+            g["solver"] = "z3 (hypotheses instantiated at goal terms)"
+            return g
     quick = _z3_run(oid, text, min(2000, timeout_ms) if use_cvc5 else timeout_ms, input_names)
     if quick["verdict"] in ("sat", "unsat") or not use_cvc5:
         return quick
@@ -160,7 +275,11 @@ def solve_all(obligations, timeout_ms=10000, workers=None, use_cvc5=True):
     for ob in obligations:
         text = to_smt2(ob)
         names = [str(t) for t, _ in ob.inputs.values()] if ob.inputs else []
-        jobs.append((ob.oid, text, timeout_ms, names, use_cvc5))
+        try:
+            inst = to_smt2_inst(ob)
+        except Exception:  # noqa: BLE001  (instantiation is an optimisation: never fatal)
+            inst = None
+        jobs.append((ob.oid, text, timeout_ms, names, use_cvc5, to_smt2_ground(ob), inst))
     workers = workers or min(16, max(1, len(jobs)))
     results = {}
     if len(jobs) <= 2:
